@@ -103,6 +103,14 @@ func c12New(kind string, populated bool) *c12world {
 		if _, err := loc.AddRule(ctx, "r1", core.Map(lib.JM(c12RuleJS))); err != nil {
 			panic(err)
 		}
+		// a dependent of each: removing f1 / r1 cascades (and takes whatever locks a
+		// cascade takes) while the other client is inside its own operation
+		if _, err := loc.AddFact(ctx, "d1", core.Map{"j": "dep", "deleteWith": []interface{}{"f1"}}); err != nil {
+			panic(err)
+		}
+		if _, err := loc.AddFact(ctx, "d2", core.Map{"j": "dep", "deleteWith": []interface{}{"r1"}}); err != nil {
+			panic(err)
+		}
 	}
 	return &c12world{ctx, store, loc}
 }
